@@ -204,3 +204,74 @@ Definition repr_ok (pats : list (bytes * V)) (d : da) : bool :=
 End DA.
 
 Arguments da : clear implicits.
+
+(* ---------- variants with the per-table work done once (used by the correspondence run) ----------
+   router_lookup, da_router_lookup and answer_ok re-tokenise every key of the table for every path.
+   A case of the run holds one table and up to some hundred paths, so Check_C05.check_case computes
+   the static records, the model trie and the tokenised entries once (vm_compute evaluates a
+   let-bound value once) and hands them to the variants below. Proofs/DencoDAProofs.v shows that
+   each variant IS the definition the theorems speak about (C05_check_shortcuts). *)
+Section Shared.
+Context {V : Type}.
+
+Definition statics_of (pats : list (bytes * V)) : list (bytes * V) :=
+  filter (fun kv => negb (is_param_key (fst kv))) pats.
+
+Fixpoint assoc_last (l : list (bytes * V)) (path : bytes) (acc : option V) : option V :=
+  match l with
+  | [] => acc
+  | kv :: r => assoc_last r path (if bytes_eqb (fst kv) path then Some (snd kv) else acc)
+  end.
+
+Definition router_lookup_pre (st : list (bytes * V)) (t : trie (V * list bytes)) (path : bytes) : lres V :=
+  match assoc_last st path None with
+  | Some v => Found v []
+  | None =>
+    match tlookup t path with
+    | Some ((v, ns), vals) =>
+      match zip_names ns vals with Some ps => Found v ps | None => Panic end
+    | None => NotFound
+    end
+  end.
+
+Definition da_router_lookup_pre (fuel : nat) (st : list (bytes * V)) (d : da V) (path : bytes) : lres V :=
+  match assoc_last st path None with
+  | Some v => Found v []
+  | None =>
+    if Nat.eqb (length (nodes d)) 1 then NotFound
+    else match lookup fuel d path [] 1%N with
+         | RFound nd vals =>
+           match nth_error (nodes d) (N.to_nat nd) with
+           | None => Panic
+           | Some (v, ns) => match zip_names ns vals with Some ps => Found v ps | None => Panic end
+           end
+         | RNot => NotFound
+         | RPanic => Panic
+         | RFuel => OutOfFuel
+         end
+  end.
+
+(* answer_ok with the tokenised table passed in, the entries matching the path computed once per
+   path, and the conjunction evaluated left to right with if (andb evaluates both sides under
+   vm_compute, which made the preference clause quadratic in the table for every path) *)
+Definition cand_ok (veqb : V -> V -> bool) (ms : list (shape * (V * list bytes))) (p : bytes) (v : V)
+           (ps : list (bytes * bytes)) (e : shape * (V * list bytes)) : bool :=
+  if veqb (fst (snd e)) v then
+  if list_eqb bytes_eqb (snd (snd e)) (map fst ps) then
+  if Nat.eqb (length ps) (placeholders (fst e)) then
+  if opt_eqb bytes_eqb (subst (fst e) (map snd ps)) (Some p) then
+  if par_texts_ok (fst e) (map snd ps) then
+  if matches_b (fst e) p then
+    forallb (fun e' => shape_eqb (fst e) (fst e') || pref_b (fst e) (fst e')) ms
+  else false else false else false else false else false else false.
+
+Definition answer_ok_pre (veqb : V -> V -> bool) (ents : list (shape * (V * list bytes))) (p : bytes)
+           (ans : option (V * list (bytes * bytes))) : bool :=
+  match ans with
+  | None => forallb (fun e => negb (matches_b (fst e) p)) ents
+  | Some (v, ps) =>
+    let ms := filter (fun e => matches_b (fst e) p) ents in
+    existsb (cand_ok veqb ms p v ps) ents
+  end.
+
+End Shared.
